@@ -662,6 +662,51 @@ _INUSE_OLD = '        for windows in (self.windowPublish, self.windowPubRelease,
 N("in-use scan written with any() over generator expressions", ALL, [(FAC, _INUSE_OLD, '        for windows in (self.windowPublish, self.windowPubRelease,\n                        self.windowSubscribe, self.windowUnsubscribe):\n            if any(msgId in window for window in windows.values()):\n                return True\n        return any(request.msgId == msgId for queue in self.queuePublishTx.values() for request in queue)\n')])
 B("in-use scan with any() whose generator filters out windows holding a single request", ["C17"], [(FAC, _INUSE_OLD, '        for windows in (self.windowPublish, self.windowPubRelease,\n                        self.windowSubscribe, self.windowUnsubscribe):\n            if any(msgId in window for window in windows.values() if len(window) > 1):\n                return True\n        return any(request.msgId == msgId for queue in self.queuePublishTx.values() for request in queue)\n')],
   expect={"C17": ["ID-SCAN"]})
+# ---- shapes met in the refactorings written by sub-agents (neutral/), and the one-step-wrong twin of each -------------------------------
+_SUFFIX_FRAMER = """    def _accumulatePacket(self, data):
+        self._buffer.extend(data)
+        while len(self._buffer) >= 2:
+            pending = self._buffer
+            lenLen = 1
+            while lenLen < len(pending) and pending[lenLen] & 0x80:
+                lenLen += 1
+            packetLen = 1 + lenLen + decodeLength(pending[1:])
+            if len(pending) < packetLen:
+                break
+            self._processPacket(pending[:packetLen])
+            self._buffer = self._buffer[packetLen:]
+
+"""
+N("framer without the length state variable, through a local alias of the carry", ALL, [(BASE, _OLD_FRAMER, _SUFFIX_FRAMER)])
+B("framer whose alias of the carry is taken once, before the loop (stale after the first packet)", ["C03"],
+  [(BASE, _OLD_FRAMER, _SUFFIX_FRAMER.replace("        while len(self._buffer) >= 2:\n            pending = self._buffer\n",
+                                              "        pending = self._buffer\n        while len(self._buffer) >= 2:\n"))], {"C03": ["F2", "F3", "F5"]})
+B("simplified framer whose width scan starts at byte 0", ["C03"],
+  [(BASE, _OLD_FRAMER, _SUFFIX_FRAMER.replace("            lenLen = 1\n", "            lenLen = 0\n"))], {"C03": ["F3"]})
+B("simplified framer that consumes one byte less than it dispatches", ["C03"],
+  [(BASE, _OLD_FRAMER, _SUFFIX_FRAMER.replace("self._buffer = self._buffer[packetLen:]", "self._buffer = self._buffer[packetLen - 1:]"))], {"C03": ["F2"]})
+_DECLEN_OLD = "    value      = 0\n    multiplier = 1\n    for i in encoded:\n        value += (i & 0x7F) * multiplier\n        multiplier *= 0x80\n        if (i & 0x80) != 0x80:\n            break\n    return value\n"
+_DECLEN_SHIFT = "    value = 0\n    shift = 0\n    for digit in encoded:\n        value += (digit & 0x7F) << shift\n        if not digit & 0x80:\n            break\n        shift += 7\n    return value\n"
+N("decodeLength with a shift counter", ALL, [(PDU, _DECLEN_OLD, _DECLEN_SHIFT)])
+B("decodeLength with a shift counter advanced before the digit is accumulated", ["C01"],
+  [(PDU, _DECLEN_OLD, "    value = 0\n    shift = 0\n    for digit in encoded:\n        shift += 7\n        value += (digit & 0x7F) << shift\n        if not digit & 0x80:\n            break\n    return value\n")],
+  {"C01": ["L1"]})
+B("decodeLength with a shift counter stepping by 8", ["C01"], [(PDU, _DECLEN_OLD, _DECLEN_SHIFT.replace("shift += 7", "shift += 8"))], {"C01": ["L1"]})
+_E16_OLD = "    value      = int(value)\n    encoded    = bytearray(2)\n    encoded[0] = value >> 8\n    encoded[1] = value & 0xFF\n    return encoded\n"
+N("encode16Int through divmod", ALL, [(PDU, _E16_OLD, "    return bytearray(divmod(int(value), 256))\n")])
+B("encode16Int through divmod with the parts swapped", ["C01", "C02"],
+  [(PDU, _E16_OLD, "    msb, lsb = divmod(int(value), 256)\n    return bytearray((lsb, msb))\n")], {"C01": ["L1"], "C02": ["S8"]})
+_REFILL_OLD = "        cnx = self.addr\n        while self.factory.queuePublishTx[cnx] and len(self.factory.windowPublish[cnx]) < self._window:\n            request = self.factory.queuePublishTx[cnx].popleft()\n            if request.msgId:   # only form QoS 1 & 2\n                self.factory.windowPublish[cnx][request.msgId] = request\n"
+_REFILL_BRK = "        pending = self.factory.queuePublishTx[self.addr]\n        while pending:\n            inflight = self.factory.windowPublish[self.addr]\n            if len(inflight) OP self._window:\n                break\n            request = pending.popleft()\n            if request.msgId:   # only form QoS 1 & 2\n                inflight[request.msgId] = request\n"
+N("refill loop with the window bound as a break guard", ALL, [(PS, _REFILL_OLD, _REFILL_BRK.replace("OP", ">="))])
+B("refill loop whose break guard lets one request too many in", ["C10"], [(PS, _REFILL_OLD, _REFILL_BRK.replace("OP", ">"))], {"C10": ["W-BOUND"]})
+_MAKEID_OLD = "        for _ in range(65535):\n            self.id = (self.id + 1) % 65536\n            self.id = self.id or 1   # avoid id 0\n            if not self._idInUse(self.id):\n                return self.id\n        return self.id\n"
+_MAKEID_WHILE = "        candidate = self.id\n        attempts  = 65535\n        while attempts:\n            candidate = (candidate + 1) & 0xFFFF\nZERO            self.id = candidate\n            if not self._idInUse(candidate):\n                break\n            attempts -= 1\n        return candidate\n"
+N("makeId as a counted while loop over a local candidate", ALL, [(FAC, _MAKEID_OLD, _MAKEID_WHILE.replace("ZERO", "            if not candidate:\n                candidate = 1\n"))])
+B("makeId as a while loop that no longer skips identifier 0", ["C17"], [(FAC, _MAKEID_OLD, _MAKEID_WHILE.replace("ZERO", ""))], {"C17": ["ID-RANGE"]})
+B("whole registry measured through a local alias (retry delay depends on the number of addresses)", ["C19"],
+  [(PS, "        interval = request.interval() + 0.25*len(self.factory.windowSubscribe[self.addr])",
+    "        windows = self.factory.windowSubscribe\n        interval = request.interval() + 0.25*len(windows)")], {"C19": ["I-KEY"]})
 N("handleCONNACK with the refusal branch first", ALL,
   [(BASE, "        if response.resultCode == 0:\n            self.state = self.CONNECTED\n            self.mqttConnectionMade()   # before the callbacks are executed ...\n            if request.keepalive != 0:\n                self._pingReq.keepalive = request.keepalive\n                self._pingReq.timer     = task.LoopingCall(self.ping)\n                self._pingReq.timer.start(request.keepalive)\n            request.deferred.callback(response.session)\n        else:\n",
     "        if response.resultCode == 0:\n            self.state = self.CONNECTED\n            self.mqttConnectionMade()   # before the callbacks are executed ...\n            keepalive = request.keepalive\n            if keepalive != 0:\n                self._pingReq.keepalive = keepalive\n                self._pingReq.timer     = task.LoopingCall(self.ping)\n                self._pingReq.timer.start(keepalive)\n            request.deferred.callback(response.session)\n        else:\n")])
